@@ -187,7 +187,7 @@ func RuleG3(c *Ctx) {
 						if r.in != fn {
 							continue
 						}
-						if rl := loopOf(cls, r.at.Block()); rl != nil && core.SameExpr(rl.bound, bound) {
+						if rl := loopOf(cls, r.at.Block()); rl != nil && affEq(rl.tripsAff(), affOf(bound, 0)) {
 							okCap, how = true, "one receive per sender: receive loop bounded by the same value as the spawn loop ("+core.PathOf(bound)+")"
 						}
 					}
@@ -218,7 +218,7 @@ func RuleG3(c *Ctx) {
 				case bound != nil:
 					for _, r := range recvs {
 						rl := loopOf(countedLoops(r.in), r.at.Block())
-						if rl == nil || !core.SameExpr(rl.bound, bound) {
+						if rl == nil || !affEq(rl.tripsAff(), affOf(bound, 0)) {
 							okRecv = false
 						}
 					}
